@@ -171,6 +171,39 @@ func (c *inlCtx) tryStmt(s ast.Stmt, next ast.Stmt) ([]ast.Stmt, bool, bool) {
 				}
 			}
 		}
+	case *ast.DeferStmt:
+		// defer f(args)  ->  defer func() { <body of f> }()   in one step: a recover() in f is called directly by the
+		// deferred function before and after. Arguments are evaluated at the defer statement: only substitutable ones.
+		c.allowRecover = true
+		call, f := c.candidate(st.Call)
+		c.allowRecover = false
+		if call != nil {
+			b := c.newBuilder(call, f)
+			if b == nil {
+				return nil, false, false
+			}
+			for _, p := range b.params {
+				if !p.subst && !p.drop {
+					c.skip(call, f, "deferred call with an argument that must be evaluated at the defer statement")
+					return nil, false, false
+				}
+				// &x evaluated now or later denotes the same variable; a plain variable must be stable
+				if id, ok := unparen(p.arg).(*ast.Ident); ok && !c.stable(id) {
+					c.skip(call, f, "deferred call with an argument that may change before the function returns")
+					return nil, false, false
+				}
+			}
+			b.mode = inlMode{kind: mStmt}
+			b.useTok = token.ASSIGN
+			body := b.build()
+			if b.fail != "" {
+				c.skip(call, f, b.fail)
+				return nil, false, false
+			}
+			lit := &ast.FuncLit{Type: &ast.FuncType{Params: &ast.FieldList{}}, Body: &ast.BlockStmt{List: body}}
+			c.done(call, f, "deferred call inlined into a deferred literal")
+			return []ast.Stmt{&ast.DeferStmt{Defer: st.Defer, Call: &ast.CallExpr{Fun: lit}}}, false, true
+		}
 	case *ast.GoStmt:
 		if call, f := c.candidate(st.Call); call != nil {
 			okArgs := true
